@@ -410,7 +410,10 @@ def evaluate(mod, cases, env=None, timeout_case=10.0):
     """run impl + model on cases; returns list of per-case records."""
     built = {c["id"]: mod.build(c) for c in cases}
     impl = run_impl(mod.__name__, cases, env=env, timeout_case=timeout_case)
-    mlines = [(c["id"], mod.model_lines(c, built[c["id"]])) for c in cases]
+    if hasattr(mod, "model_lines2"):      # the model is driven by something the implementation run observed (e.g. an I/O trace)
+        mlines = [(c["id"], mod.model_lines2(c, built[c["id"]], impl.get(c["id"], {}))) for c in cases]
+    else:
+        mlines = [(c["id"], mod.model_lines(c, built[c["id"]])) for c in cases]
     mout = run_model(mlines)
     recs = []
     for c in cases:
